@@ -78,6 +78,17 @@ ProofComplete(p, me, res) == ProofVerifies(p, me) => res
 \* has_expired() returned res for a quote dated d seconds after the sampled now
 C13_Expiry(d, res) == res <=> Expired(d, 0)
 
+\* ProofOfPayment::has_expired() (the proof-level function a node calls before accepting a payment) returned res for
+\* a proof whose quotes are dated ds[i] seconds after the sampled now: a proof is reported expired exactly when one
+\* of the quotes it carries is expired, wherever in the proof that quote stands
+C13_ProofExpiry(ds, res) == res <=> \E i \in DOMAIN ds : Expired(ds[i], 0)
+
+\* the same edges at millisecond resolution: ms = date of the quote minus now.  Judged only for whole-second
+\* offsets (I4: sub-second parts are below the granularity of the statement) whose verdict cannot change while
+\* the call runs
+ExpiredMs(ms) == -ms > Window * 1000 \/ ms > 0
+C13_ExpiryFine(ms, res) == res <=> ExpiredMs(ms)
+
 \* historical_verify between two quotes of the same node with different timestamps returned ok (ok = not flagged)
 Older(a, b) == IF a.ts < b.ts THEN a ELSE b
 Newer(a, b) == IF a.ts < b.ts THEN b ELSE a
